@@ -76,7 +76,19 @@ def new_engine(cset):
     e.frame_func = {}
     e.frame_qual = {}
     e.captured = set()
+    e.frame_func = {}
+    e.frame_qual = {}
+    e.captured = set()
     e.cur_key = None
+    # contract-file level axioms (assumptions about uninterpreted formatters etc.), each a contract expression
+    for text in getattr(cset.pymod, "AXIOMS", []):
+        st0 = State()
+        st0.frames[0] = ({}, None, cset.spec_mod)
+        st0.cur = 0
+        st0.nref = z3.Int("nref0")
+        st0.pure = True
+        e.axioms.append(e.eval_spec(text, st0, {}))
+        e.assumptions_used.add("AXIOM: " + text)
     e.prune_solver = z3.Solver()
     # deterministic budget (z3 resource units, not wall clock) so that the set of explored paths -- and with it the
     # obligation names -- does not depend on machine load
